@@ -124,6 +124,12 @@ class Prop(core.Prop):
                     yield {'time': True, 'unit': unit, 'desc': desc, 'tz': tzkind}
                 # a 365-day calendar declared on the time VARIABLE, queries after the leap day it lacks
                 yield {'time': True, 'unit': unit, 'desc': desc, 'tz': 'utc', 'calendar': 'noleap'}
+        # proleptic Gregorian calendar counted from a reference before the Julian/Gregorian switch of 1582
+        for unit in ('hours', 'days'):
+            for desc in (False, True):
+                for refy in ((1, 1, 1), (1582, 10, 1)):
+                    yield {'time': True, 'unit': unit, 'desc': desc, 'tz': 'utc', 'calendar': 'proleptic_gregorian',
+                           'ancient': list(refy)}
         # reference instants with minutes and seconds; units down to seconds; exact look-up of the record times
         for unit in ('hours', 'days', 'minutes', 'seconds'):
             for desc in (False, True):
@@ -135,7 +141,7 @@ class Prop(core.Prop):
 
     def expand(self, group):
         if group.get('time'):
-            for method in ('nearest', 'bounds') + (('exact',) if 'refsec' in group else ()):
+            for method in ('nearest', 'bounds') + (('exact',) if ('refsec' in group or 'ancient' in group) else ()):
                 yield dict(group, method=method)
             return
         for method in METHODS:
@@ -332,11 +338,21 @@ class Prop(core.Prop):
             ref = ref + datetime.timedelta(seconds=case['refsec'])
             tv.units = '%s since %s+0000' % (unit, ref.strftime('%Y-%m-%d %H:%M:%S'))
         step = datetime.timedelta(**{unit: 1})
+        base = 0.
+        if case.get('ancient'):
+            # (Python's datetime IS the proleptic Gregorian calendar)
+            y0, m0, d0 = case['ancient']
+            anc = datetime.datetime(y0, m0, d0, tzinfo=datetime.timezone.utc)
+            base = (ref - anc) / step          # the same instants as before, counted from the ancient reference
+            tv.units = '%s since %04d-%02d-%02d 00:00:00' % (unit, y0, m0, d0)
+            tv[:] = vals + base
         qnum = [0., 1., 2.9, 3.1, 6., 9., 11., 21., 29., 30.]
         if method == 'exact':
             qnum = [0., 6., 12., 30.]
         qdt = [ref + q * step for q in qnum]
-        if case.get('calendar'):
+        if case.get('ancient'):
+            tv.calendar = case['calendar']
+        elif case.get('calendar'):
             tv.calendar = case['calendar']
             # in a calendar without 29 February the instant q units after the reference is one real day later
             # once it passes 28 Feb 24:00 (12 hours after the reference)
@@ -355,9 +371,10 @@ class Prop(core.Prop):
         c = vals.tolist()
         e = edges_for(c)
         scope = dict(method=method, rep='none', direction='desc' if desc else 'asc', tz=tz, unit=unit,
-                     front='time2idx', calendar=case.get('calendar') or 'standard', refsec=case.get('refsec', 0))
+                     front='time2idx', calendar=case.get('calendar') or 'standard', refsec=case.get('refsec', 0),
+                     ancient=bool(case.get('ancient')))
         sig = ('time2idx', method, scope['direction'], tz)
-        st = [h64('c16t', unit, desc, tz, case.get('calendar'), case.get('refsec'))]
+        st = [h64('c16t', unit, desc, tz, case.get('calendar'), case.get('refsec'), case.get('ancient'))]
         self.warned[:] = []
         vs = []
         try:
@@ -376,5 +393,5 @@ class Prop(core.Prop):
         if bad:
             vs.append(viol('wrong-cell', sig, 'time coordinate %s: value %r -> %r expected %r (%d wrong)'
                            % (c, bad[0][0], bad[0][1], bad[0][2], len(bad)), **scope))
-        return result('viol' if vs else 'ok-time', vs, st, 1, h64('c16t', unit, desc, tz, method, case.get('calendar'), case.get('refsec')),
+        return result('viol' if vs else 'ok-time', vs, st, 1, h64('c16t', unit, desc, tz, method, case.get('calendar'), case.get('refsec'), case.get('ancient')),
                       h64(got.tolist()) if not vs else None)
